@@ -326,7 +326,11 @@ func (group *Group) GetStat(maxsub int) base.StatGroup {
 
 	group.stat.GetFpsFrom(&group.inVideoFpsRecords, time.Now().Unix())
 
-	return group.stat
+	// 注意，Fps是slice，group.stat中的底层数组在下一次GetStat时会被复用（重新填充并排序），
+	// 而返回值会在锁外被使用（比如HTTP-API中序列化成json），所以这里拷贝一份
+	ret := group.stat
+	ret.Fps = append([]base.RecordPerSec(nil), group.stat.Fps...)
+	return ret
 }
 
 func (group *Group) KickSession(sessionId string) bool {
